@@ -1,5 +1,6 @@
 """C14 — future attester duties are all subscribed; every selected aggregator aggregates
 (spec/Subscriber.tla)."""
+import concurrent.futures
 import importlib.util
 import json
 import os
@@ -55,7 +56,7 @@ def _agg(d, target):
     return d["h"] % max(1, d["size"] // target) == 0
 
 
-def features(steps):
+def features(steps, with_flips=False):
     """What a scenario exercises (used to pick scenarios and to describe them; never for the verdict)."""
     now, target = steps[0]["now"], steps[0]["target"]
     spe, ep = steps[0].get("spe", SPE), steps[0].get("ep")
@@ -69,10 +70,48 @@ def features(steps):
          # history of the subscription-info store
          "refresh": False, "attest_in_flight": False, "attest_after_failed_resub": False,
          "attest_after_resub": False, "resub_replaces": False, "oracle_changed": False,
-         "two_in_flight": False, "subscribe_failed": False}
+         "two_in_flight": False, "subscribe_failed": False,
+         # the instances' history: a validator whose selection was calculated before (its slot not past then) is
+         # calculated again for the SAME slot with a committee length that changes the rule's answer / any other
+         # length or committee index; a call held inside the aggregator while another one stores; ... while the
+         # oracle it fetched is no longer the oracle; an aggregating in-slot attestation after such a store
+         "same_slot_flag_flips": False, "same_slot_other_committee": False, "held_call": False,
+         "held_overlaps_store": False, "held_is_stale": False, "attest_after_flip": False,
+         # the signer refused the selection call of a slot, and a later call calculated that slot
+         "signer_refused": False, "call_after_signer_refusal": False}
+    refused = set()              # (v, slot) of selections the signer refused
+    seen_sel = {}                # (v, slot) -> set of (committee, size) the aggregator was asked about
+    held = {}                    # id -> [snapshot, stores since]
+    nheld = 0
+    flipped = set()              # (slot, committee) of validators whose flag flipped with the length
+    attested = set()
+    flips = []                   # (step, slot, committee, now, slots attested so far) of every such calculation
+    step = 0
 
-    def stored():
+    def asked(ds, sfail=()):
+        # the selection calls of a subscription that fetched the duties ds
+        for d in ds:
+            k = (d["v"], d["slot"])
+            if d["slot"] in sfail:
+                f["signer_refused"] = True
+                refused.add(k)
+                continue
+            f["call_after_signer_refusal"] |= k in refused
+            for (c0, z0, at0) in seen_sel.get(k, ()):
+                if at0 <= d["slot"] and (c0, z0) != (d["committee"], d["size"]):
+                    f["same_slot_other_committee"] = True
+                    if _agg(d, target) != (d["h"] % max(1, z0 // target) == 0):
+                        f["same_slot_flag_flips"] = True
+                        flipped.add((d["slot"], d["committee"]))
+                        flips.append((step, d["slot"], d["committee"], now, frozenset(attested)))
+            seen_sel.setdefault(k, set()).add((d["committee"], d["size"], now))
+
+    def stored(duties=None):
         nonlocal snap, failed_since_store, refreshed_since_store
+        if duties is None:
+            duties = cur()
+        for hc in held.values():
+            hc[1] += 1
         fut = any(d["slot"] > now for d in duties)
         f["future"] |= fut
         f["past_and_future"] |= fut and any(d["slot"] <= now for d in duties)
@@ -87,14 +126,26 @@ def features(steps):
         failed_since_store = False
         refreshed_since_store = False
 
-    for st in steps[1:]:
+    def cur():
+        return [dict(d) for d in duties]
+
+    for step, st in enumerate(steps[1:], 1):
         ev = st["ev"]
         if ev == "Duty":
-            key = (st["v"], st["slot"], st["committee"])
-            if st.get("op") == "drop":
+            op = st.get("op")
+            if op == "resize":
+                for d in duties:
+                    if d["slot"] == st["slot"] and d["committee"] == st["committee"]:
+                        d["size"] = st["size"]
+            elif op == "move":
+                for d in duties:
+                    if d["v"] == st["v"] and d["slot"] == st["slot"]:
+                        d["committee"], d["size"] = st["committee"], st["size"]
+            elif op == "drop":
+                key = (st["v"], st["slot"], st["committee"])
                 duties = [d for d in duties if (d["v"], d["slot"], d["committee"]) != key]
             else:
-                duties.append(st)
+                duties.append({k: st[k] for k in ("v", "slot", "committee", "size", "h")})
             f["oracle_changed"] |= started
         elif ev == "Advance":
             now = st["now"]
@@ -104,7 +155,8 @@ def features(steps):
                 f["subscribe_failed"] = True
                 failed_since_store |= snap is not None
             else:
-                stored()
+                asked(cur(), st.get("sfail", ()))
+                stored([d for d in cur() if d["slot"] not in st.get("sfail", ())])
         elif ev == "Head":
             started = True
             if st.get("reorg") and ep is not None and now // spe in (ep - 1, ep):
@@ -122,11 +174,31 @@ def features(steps):
                         key = lambda d: (d["v"], d["slot"], d["committee"], d["size"], d["h"])
                         f["resub_replaces"] |= sorted(map(key, snap)) != sorted(map(key, duties))
                     was = snap is not None
-                    stored()
+                    asked(cur(), st.get("sfail", ()))
+                    stored([d for d in cur() if d["slot"] not in st.get("sfail", ())])
                     refreshed_since_store = False
                     f["_resubbed"] = was
+        elif ev == "Fetch":
+            if inflight > 0:
+                inflight -= 1
+                nheld += 1
+                held[nheld] = [cur(), 0]
+                f["held_call"] = True
+                asked(held[nheld][0])
+        elif ev == "Finish":
+            if st["id"] in held:
+                hsnap, n = held.pop(st["id"])
+                key = lambda d: (d["v"], d["slot"], d["committee"], d["size"], d["h"])
+                f["held_overlaps_store"] |= n > 0
+                f["held_is_stale"] |= sorted(map(key, hsnap)) != sorted(map(key, duties))
+                stored(hsnap)
+                f["_resubbed"] = True
         elif ev == "Attest":
             started = True
+            attested.add(st["slot"])
+            if st["ok"] and st["slot"] == now:
+                # the aggregation jobs (or their absence) are judged for a validator whose flag flipped
+                f["attest_after_flip"] |= any((st["slot"], c) in flipped for c in st["committees"])
             if snap is not None and st["ok"]:
                 cs = {d["committee"] for d in snap
                       if d["slot"] == st["slot"] and d["committee"] in st["committees"] and _agg(d, target)}
@@ -140,7 +212,23 @@ def features(steps):
                 elif cs:
                     f["late_attest"] = True
     f.pop("_resubbed", None)
+    if with_flips:
+        return f, flips
     return f
+
+
+def flip_tail(h):
+    """A history in which a validator's flag flipped with the committee length, cut after that (re-)subscription
+    and continued by the attestation job of the validator's slot, in its slot (Advance and AttestJob are enabled
+    there by the specification: the slot is not past and its job has not run): the aggregation jobs scheduled
+    from the re-subscription are judged."""
+    _f, flips = features(h, with_flips=True)
+    for step, slot, committee, now, attested in reversed(flips):
+        if h[step]["ev"] == "Fetch" or slot < now or slot in attested:
+            continue
+        tail = [{"ev": "Advance", "now": slot}] if slot > now else []
+        return h[:step + 1] + tail + [{"ev": "Attest", "slot": slot, "committees": [committee], "ok": True}]
+    return None
 
 
 def sig_of(s):
@@ -156,16 +244,25 @@ def nontrivial(s, rows):
 
 def scenarios(tier):
     quick = tier == "quick"
-    main = vf.tlc_scenarios(PID, "Scen_Subscriber", "Scen_Subscriber.cfg", num=300 if quick else 2500,
-                            depth=16, name="scen-main")
-    dense = vf.tlc_scenarios(PID, "Scen_Subscriber", "Scen_Subscriber_dense.cfg", num=300 if quick else 4000,
-                             depth=14, name="scen-dense", aseed=vf.seed() + 1000)
+    gens = [
+        ("scen-main", "Scen_Subscriber.cfg", 300 if quick else 2500, 16, None),
+        ("scen-dense", "Scen_Subscriber_dense.cfg", 300 if quick else 4000, 14, vf.seed() + 1000),
+        # histories on the instances: re-orgs that leave a validator its slot but change committee index / length
+        # (moduli 4, 6, 20 / 2, 3, 10; 6, 7, 8 with the mainnet target 16), calls held inside the aggregator
+        ("scen-move", "Scen_Subscriber_move.cfg", 500 if quick else 4000, 15, vf.seed() + 2000),
+        ("scen-move16", "Scen_Subscriber_move16.cfg", 400 if quick else 3000, 14, vf.seed() + 3000),
+    ]
+    with concurrent.futures.ThreadPoolExecutor(max_workers=4) as ex:
+        main, dense, move, move16 = ex.map(
+            lambda g: vf.tlc_scenarios(PID, "Scen_Subscriber", g[1], num=g[2], depth=g[3], name=g[0], aseed=g[4]), gens)
     rnd = random.Random(vf.seed())
-    rnd.shuffle(main)
-    rnd.shuffle(dense)
-    cap = 450 if quick else 9000
+    for x in (main, dense, move, move16):
+        rnd.shuffle(x)
+    cap = 700 if quick else 12000
     # make sure every class of interesting history is present, then fill up at random
-    want = ["attest_in_flight", "attest_after_failed_resub", "attest_after_resub", "resub_replaces",
+    want = ["same_slot_flag_flips", "attest_after_flip", "held_overlaps_store", "held_is_stale", "same_slot_other_committee",
+            "held_call", "call_after_signer_refusal",
+            "attest_in_flight", "attest_after_failed_resub", "attest_after_resub", "resub_replaces",
             "two_in_flight", "refresh",
             "two_aggregating_committees", "aggregator_behind_non_aggregator", "past_and_future",
             "aggregating_attest", "late_attest"]
@@ -177,60 +274,114 @@ def scenarios(tier):
             seen.add(k)
             picked.append(h)
 
-    pool = dense + main
+    # (the two flip classes are what a memo on the aggregator instance needs: taken first, from every set)
+    pool = [h for t in zip(move, move16) for h in t] + move[len(move16):] + move16[len(move):] + dense + main
+    # ... continued by the attestation job of the slot concerned (the jobs scheduled from the re-subscription)
+    tails = [t for t in (flip_tail(h) for h in pool[:4000]) if t is not None]
+    for t in tails[:(40 if quick else 600)]:
+        take(t)
     feats = [features(h) for h in pool]
-    for w in want:
+    for i, w in enumerate(want):
         n = 0
         for h, f in zip(pool, feats):
             if f[w]:
                 take(h)
                 n += 1
-                if n >= (25 if quick else 400):
+                if n >= ((60 if i < 4 else 25) if quick else (900 if i < 4 else 400)):
                     break
-    for a, b in zip(main, dense + [None] * max(0, len(main) - len(dense))):
-        take(a)
-        if b is not None:
-            take(b)
-    for h in dense:
-        take(h)
+    fill = [main, dense, move, move16]
+    for i in range(max(len(x) for x in fill)):
+        for x in fill:
+            if i < len(x):
+                take(x[i])
     cnt = {}
     for h in picked:
         for k, on in features(h).items():
             cnt[k] = cnt.get(k, 0) + (1 if on else 0)
     vf.log("scenario classes (of %d): %s" % (len(picked), ", ".join("%s=%d" % kv for kv in sorted(cnt.items()))))
-    return [{"sc": i + 1, "spe": SPE, "wide": i % 2 == 1, "steps": h} for i, h in enumerate(picked)]
+    return [{"sc": i + 1, "spe": h[0].get("spe", SPE), "wide": i % 2 == 1, "steps": h} for i, h in enumerate(picked)]
+
+
+# control designs of the attestation aggregator with state kept on the instance (spec/SubscriberMemo.tla)
+MUST_PASS = ["MC_SubscriberMemo_memosig.cfg",            # memoising the signature only is legal
+             "MC_SubscriberMemo_memoflag_fresh.cfg",     # every design is right on a fresh instance ...
+             "MC_SubscriberMemo_sharedsizes_fresh.cfg",
+             "MC_SubscriberMemo_sharedsizes_seq.cfg"]    # ... and this one in every sequential history
+MUST_VIOLATE = [("MC_SubscriberMemo_memoflag.cfg", "AggregatorRuleExact"),      # rejected by a sequential history
+                ("MC_SubscriberMemo_sharedsizes.cfg", "AggregatorRuleExact")]   # rejected once calls overlap
+
+
+def _expect_violation(cfg, inv, timeout=600):
+    """A control design that the invariants must reject: otherwise the model cannot see the class (broken run,
+    never a verdict)."""
+    r = vf.tlc(PID, "mc-" + cfg.replace(".cfg", ""), "SubscriberMemo", cfg, workers=4, timeout=timeout, heap="4g")
+    if r["timed_out"] or r["kind"] != "invariant" or r["violated"] != inv:
+        raise vf.Broken("%s should violate %s (vacuous model?): %s %s\n%s" % (cfg, inv, r["kind"], r["violated"], r["out"][-1500:]))
+    vf.log("TLC SubscriberMemo/%s: %s violated as it must be (%d distinct states, %.1fs)" % (cfg, inv, r["distinct"], r["wall_s"]))
+    return r
+
+
+def model(tier):
+    """Exhaustive runs and vacuity self-checks, side by side."""
+    jobs = [("mc", "Subscriber", "MC_Subscriber.cfg", {}),
+            # ... with the oracle changed by the re-org and housekeeping two epochs later (one committee)
+            ("mc", "Subscriber", "MC_Subscriber_reorg.cfg", {}),
+            # ... a re-subscription held inside the aggregator while others run, the re-org leaving validators their slot
+            ("mc", "Subscriber", "MC_Subscriber_overlap.cfg", {})]
+    jobs += [("mc", "SubscriberMemo", c, {}) for c in MUST_PASS]
+    jobs += [("bad", c, inv, {}) for c, inv in MUST_VIOLATE]
+    if tier == "thorough":
+        jobs += [("mc", "Subscriber", "MC_Subscriber_big.cfg", {"coverage": True, "timeout": 1800}),
+                 ("mc", "Subscriber", "MC_Subscriber_reorg_big.cfg", {"timeout": 1200}),
+                 ("mc", "Subscriber", "MC_Subscriber_overlap_big.cfg", {"timeout": 1500})]
+
+    def one(j):
+        if j[0] == "bad":
+            _expect_violation(j[1], j[2])
+            return None
+        return vf.tlc_exhaustive(PID, j[1], j[2], workers=4, **j[3])
+
+    with concurrent.futures.ThreadPoolExecutor(max_workers=4 if tier == "quick" else 3) as ex:
+        return [r for r in ex.map(one, jobs) if r is not None]
 
 
 def run(tier):
     v = vf.Verdict(PID, tier)
     v.assumptions = [
         "the beacon node's duty answers, the slot-selection signer, the attester, the clock and the scheduler are "
-        "scripted fakes at the services' interfaces; the signer and the submitter do not fail; the beacon node's "
-        "attester-duties endpoint, as seen by the subscriber, can be held (a re-subscription in flight) or made to fail",
+        "scripted fakes at the services' interfaces; the submitter does not fail; the beacon node's "
+        "attester-duties endpoint, as seen by the subscriber, can be held (a re-subscription in flight) or made to fail; "
+        "the slot-selection signer can park the call of one slot (the re-subscription stays inside the real "
+        "AggregatorsAndSignatures while other calls run on the same instances) or refuse the call of a slot",
+        "one real controller, beacon committee subscriber and attestation aggregator per history (never re-built "
+        "between the calls of a scenario); a re-org may leave a validator its slot and change committee index / length",
         "h (little-endian uint64 of SHA-256(slot signature)[0:8]) is computed in Go and logged modulo 840; every "
         "modulus max(1, size/target) of the scenarios divides 840",
         "the attestation job of a slot runs once, in its slot or later (C02/C03)",
     ]
     # the exhaustive run and the scenario enumeration of the aggregation pipeline run beside the rest
     ah = agg.start(PID, "A", tier)
-    # history of the subscription-info store: refresh / re-subscription in flight, ok, failed (frozen oracle) ...
-    v.add_mc(vf.tlc_exhaustive(PID, "Subscriber", "MC_Subscriber.cfg"))
-    # ... and with the oracle changed by the re-org and housekeeping two epochs later (one committee)
-    v.add_mc(vf.tlc_exhaustive(PID, "Subscriber", "MC_Subscriber_reorg.cfg"))
-    if tier == "thorough":
-        v.add_mc(vf.tlc_exhaustive(PID, "Subscriber", "MC_Subscriber_big.cfg", coverage=True, timeout=1800))
-        v.add_mc(vf.tlc_exhaustive(PID, "Subscriber", "MC_Subscriber_reorg_big.cfg", timeout=1200))
-    sc = scenarios(tier)
+    # history of the subscription-info store: refresh / re-subscription in flight, ok, failed (frozen oracle) ...;
+    # beside them the scenario generators
+    with concurrent.futures.ThreadPoolExecutor(max_workers=2) as ex:
+        fm = ex.submit(model, tier)
+        fs = ex.submit(scenarios, tier)
+        for r in fm.result():
+            v.add_mc(r)
+        sc = fs.result()
     vf.conformance(v, sc, driver, "Trace_Subscriber", "Trace_Subscriber.cfg", sig_of, nontrivial,
                    chunk=None if tier == "quick" else 1500)
     # additional conformance block: what the aggregation jobs set up above do when they run
     # (attestationaggregator/standard Aggregate against pipeline A of Aggregation.tla)
     agg.finish(v, ah)
     v.coverage["rule"] = ("behaviours of Subscriber.tla generated by TLC simulation (seeded; a sparse and a dense "
-                          "constant set), replayed on the real subscriber + aggregator + controller; every other "
+                          "constant set, two sets for same-slot re-orgs), replayed on the real subscriber + aggregator + controller; every other "
                           "scenario is shifted to a seeded far-away epoch; histories include re-org head events "
-                          "through HandleHeadEvent (refresh), re-subscriptions held in flight / answered / failed, "
-                          "oracle changes and attestation jobs at any point of them; non-trivial = a successful "
+                          "through HandleHeadEvent (refresh), re-subscriptions held in flight / answered / failed / held "
+                          "inside the aggregator at the signer while other subscriptions run, oracle changes (add, drop, same "
+                          "slot in another committee or a committee of another length chosen so that the rule's answer "
+                          "changes), signer refusals and attestation jobs at any point of them; control designs with state "
+                          "kept on the aggregator instance (SubscriberMemo.tla) are run as self-checks; non-trivial = a successful "
                           "(re-)subscription with a future duty or an in-slot attestation of a committee that aggregates "
                           "by the info in force; distinct by step list.  "
                           "Aggregation pipeline: every behaviour of Scen_Aggregation (A) enumerated by TLC (quick: a "
